@@ -306,20 +306,19 @@ class DiskFile(VirtualFileContainer):
 
                 preamble.read(self.buffer, self.seek_granule(starting_granule.int))
 
+                # A file without a preamble takes its length from the File Allocation Table
                 data_length = preamble.data_length.int
-                if data_length == 0:
+                if preamble.length == 0:
                     data_length = self.calculate_file_length(starting_granule.int, fat, bytes_in_last_sector.int)
 
-                file_data, post_pointer = self.read_data(
-                    starting_granule.int,
-                    fat,
-                    preamble=preamble,
-                    data_length=data_length,
-                )
+                # Read the file as one stream by following its chain of granules
+                postamble = Postamble() if preamble.is_ml() else None
+                stream_length = preamble.length + data_length + (postamble.length if postamble else 0)
+                stream = self.read_chain(starting_granule.int, fat, stream_length)
+                file_data = stream[preamble.length:preamble.length + data_length]
 
-                if preamble.is_ml():
-                    postamble = Postamble()
-                    postamble.read(self.buffer, post_pointer)
+                if postamble:
+                    postamble.read(stream, preamble.length + data_length)
                     exec_addr = postamble.exec_addr
 
                 coco_file = CoCoFile(
@@ -357,7 +356,9 @@ class DiskFile(VirtualFileContainer):
             fat_entry = fat[granule]
             if (fat_entry & 0xC0) == 0xC0:
                 is_last_granule = True
-                total_bytes += ((fat_entry & 0x1F) - 1) * DiskConstants.BYTES_PER_SECTOR
+                sectors_used = fat_entry & 0x1F
+                if sectors_used > 0:
+                    total_bytes += (sectors_used - 1) * DiskConstants.BYTES_PER_SECTOR
                 total_bytes += bytes_in_last_sector
             else:
                 total_bytes += DiskConstants.HALF_TRACK_LEN
@@ -507,6 +508,30 @@ class DiskFile(VirtualFileContainer):
         if granule > 33:
             granule_offset += DiskConstants.HALF_TRACK_LEN * 2
         return granule_offset
+
+    def read_chain(self, starting_granule, fat, length):
+        """
+        Reads the first bytes of a file by following its chain of granules through
+        the File Allocation Table, wherever those granules are on the disk.
+
+        :param starting_granule: the first granule of the file
+        :param fat: the File Allocation Table data for the disk
+        :param length: the number of bytes to read
+        :return: a list of the bytes read, in file order
+        """
+        stream = []
+        granule = starting_granule
+        while True:
+            pointer = self.seek_granule(granule)
+            chunk_size = min(length - len(stream), DiskConstants.HALF_TRACK_LEN)
+            if len(self.buffer[pointer:]) < chunk_size:
+                raise VirtualFileValidationError("Unable to read data - insufficient bytes in buffer")
+            stream.extend(self.buffer[pointer:pointer + chunk_size])
+            if len(stream) == length:
+                return stream
+            granule = fat[granule]
+            if granule >= DiskConstants.TOTAL_GRANULES:
+                raise VirtualFileValidationError("Unable to read data - granule chain ends before the file does")
 
     def read_data(self, starting_granule, fat, preamble, data_length=0):
         """
